@@ -12,7 +12,8 @@ from verifkit.ref import dist as R
 
 ID = "C14"
 RULE = ("cases drawn from sha256(property,tier,seed,lane,index): loss class x input layout (vector / single column / "
-        "n-by-p matrix) x spread form (default, python number, per-observation array) x weights; y, yhat log-uniform "
+        "n-by-p matrix) x spread form (default, python float / int, per-observation float array, integer-dtype array, single-column array) x weights (none, float, "
+        "with zeros, integer dtype, boolean) x dtype of y (float; integer dtype for half of the count data); y, yhat log-uniform "
         "in [1e-3,1e4] (integers >=1 for count losses). Non-trivial: >=3 observations with pairwise distinct y and yhat "
         "and y != yhat; distinct by hash of the full case")
 ASSUMPTIONS = ["mpmath 30-digit evaluation of the textbook densities is the ground truth",
@@ -36,6 +37,8 @@ def floors(tier):
         f["class:" + k] = 100
     for lay in ("vec", "col", "mat"):
         f["class:layout-" + lay] = 100
+    for c in ("spread-int-array", "spread-column-array", "weights-with-zeros", "weights-int", "weights-bool", "y-int-dtype"):
+        f["class:" + c] = 40
     f["counter:loss_checks"] = 1000
     f["counter:d1_checks"] = 1000
     f["counter:d2_checks"] = 1000
@@ -69,22 +72,36 @@ def gen_case(rng):
     spread_form = None
     spread = None
     if kind in SPREAD_ARG:
-        spread_form = rng.choice(["default", "float", "int", "array"])
+        spread_form = rng.choice(["default", "float", "int", "array", "array", "int-array", "column-array"])
         if spread_form == "float":
             spread = logu(rng, 1e-2, 1e2)
         elif spread_form == "int":
             spread = rng.randint(2, 9)
-        elif spread_form == "array":
+        elif spread_form in ("array", "column-array"):
             spread = [logu(rng, 1e-2, 1e2) for _ in range(m)]
+        elif spread_form == "int-array":       # whole-number spreads held in an integer-dtype ndarray
+            spread = [rng.randint(1, 9) for _ in range(m)]
     weights = None
+    weight_form = None
     if rng.random() < 0.4:
-        weights = [rng.choice([0.5, 1.0, 2.0, 3.0, logu(rng, 0.1, 10)]) for _ in range(m)]
-    return {"kind": kind, "layout": layout, "n": n, "p": p, "y": y, "yhat": yhat,
-            "spread_form": spread_form, "spread": spread, "weights": weights}
+        weight_form = rng.choice(["float", "float", "with-zeros", "int", "bool"])
+        if weight_form == "float":
+            weights = [rng.choice([0.5, 1.0, 2.0, 3.0, logu(rng, 0.1, 10)]) for _ in range(m)]
+        elif weight_form == "with-zeros":
+            weights = [rng.choice([0.0, 1.0, 2.5]) for _ in range(m)]
+        elif weight_form == "int":
+            weights = [rng.choice([0, 1, 2, 3]) for _ in range(m)]
+        else:
+            weights = [rng.choice([0, 1]) for _ in range(m)]
+        if not any(weights):
+            weights[rng.randrange(m)] = 1
+    y_int = count and rng.random() < 0.5     # count data held in an integer-dtype array
+    return {"kind": kind, "layout": layout, "n": n, "p": p, "y": y, "yhat": yhat, "y_int_dtype": y_int,
+            "spread_form": spread_form, "spread": spread, "weights": weights, "weight_form": weight_form}
 
 
-def shaped(vals, n, p, layout, single_col=False):
-    a = np.array(vals, dtype=float)
+def shaped(vals, n, p, layout, single_col=False, dtype=float):
+    a = np.array(vals, dtype=dtype)
     if layout == "mat":
         return a.reshape(n, p)
     if single_col:
@@ -97,11 +114,11 @@ def run_case(rng, idx, tier, lane, ctx):
     case = gen_case(rng)
     kind, layout, n, p = case["kind"], case["layout"], case["n"], case["p"]
     m = n * p
-    y = shaped(case["y"], n, p, layout)
+    y = shaped(case["y"], n, p, layout, dtype=int if case["y_int_dtype"] else float)
     yhat = shaped(case["yhat"], n, p, layout, single_col=(layout == "col"))
     kwargs = {}
     if case["weights"] is not None:
-        kwargs["weights"] = shaped(case["weights"], n, p, layout)
+        kwargs["weights"] = shaped(case["weights"], n, p, layout, dtype={"int": int, "bool": bool}.get(case["weight_form"], float))
     sp_vals = [None] * m
     if kind in SPREAD_ARG:
         if case["spread_form"] == "default":
@@ -110,7 +127,8 @@ def run_case(rng, idx, tier, lane, ctx):
             kwargs[SPREAD_ARG[kind]] = case["spread"]
             sp_vals = [case["spread"]] * m
         else:
-            kwargs[SPREAD_ARG[kind]] = shaped(case["spread"], n, p, layout)
+            kwargs[SPREAD_ARG[kind]] = shaped(case["spread"], n, p, layout, single_col=(case["spread_form"] == "column-array"),
+                                              dtype=int if case["spread_form"] == "int-array" else float)
             sp_vals = list(case["spread"])
     counters = {"loss_checks": 0, "d1_checks": 0, "d2_checks": 0, "ref_derivative_crosschecks": 0}
     witnesses = []
@@ -212,7 +230,8 @@ def run_case(rng, idx, tier, lane, ctx):
     distinct = len(set(yv)) == m and len(set(mv)) == m and all(a != b for a, b in zip(yv, mv))
     res = {"status": "violated" if witnesses else "held", "nontrivial": bool(m >= 3 and distinct),
            "key": None, "classes": [kind, "layout-" + layout, "spread-" + str(case["spread_form"]),
-                                    "weighted" if wv is not None else "unweighted"],
+                                    "weighted" if wv is not None else "unweighted", "weights-" + str(case["weight_form"]),
+                                    "y-int-dtype" if case["y_int_dtype"] else "y-float-dtype"],
            "counters": counters, "sample": case}
     from verifkit.common import canon_hash
     res["key"] = canon_hash(case)
